@@ -217,6 +217,29 @@ pub fn grid() -> Vec<Vec<Step>> {
         steps.extend(tail());
         out.push(steps);
     }
+    // a second watcher of the same key forgets its watch (in every way a watch can be forgotten)
+    // between the change and the first watcher's EXEC, or had watched before the change: the
+    // evidence of the change belongs to the key, not to the connection that unwatches
+    for forget in [vec![vec!["UNWATCH"]], vec![vec!["MULTI"], vec!["DISCARD"]], vec![vec!["MULTI"], vec!["PING"], vec!["EXEC"]], vec![]] {
+        for bystander_first in [false, true] {
+            let mut steps = vec![c(0, &["WATCH", "w"])];
+            if bystander_first {
+                steps.push(c(2, &["WATCH", "w"]));
+            }
+            steps.push(c(1, &["SET", "w", "changed"]));
+            if !bystander_first {
+                steps.push(c(2, &["WATCH", "w"]));
+            }
+            if forget.is_empty() {
+                steps.push(Step::Reconnect { conn: 2 });
+            }
+            for f in &forget {
+                steps.push(c(2, f));
+            }
+            steps.extend(tail());
+            out.push(steps);
+        }
+    }
     // watching in one database, changing the same name in another
     let mut steps = vec![c(0, &["SELECT", "3"]), c(0, &["WATCH", "w"]), c(1, &["SELECT", "4"]), c(1, &["SET", "w", "x"])];
     steps.extend(tail());
@@ -289,7 +312,7 @@ fn excluder(a: &Active, w: &mut World, conn: usize, cm: &Cmd) -> Option<&'static
 pub fn spec() -> HistSpec {
     HistSpec {
         id: "C08",
-        rule: "(a) enumerated grid, every tier: ~70 commands (every write command of the server plus reads and writes to same-shard / other-shard keys) x watched-key state {absent, string, list, set, hash, zset, stream, string with TTL} x path {another connection directly, the watching connection before MULTI, another connection inside its own EXEC, a script via redis.call}, plus a blocking pop served to a third client, the key's own deadline passing before and after a sweeper pass, UNWATCH/DISCARD/EXEC forgetting the watches, and equal names in other databases; (b) random histories: WATCH 1..3 keys, 0..6 commands by two other connections on watched / same-shard / other-shard keys and other databases, optionally UNWATCH/DISCARD/EXEC, then MULTI; SET probe; EXEC; EXISTS probe. Oracle: the model decides 'state of a watched key changed' => EXEC must be nil and probe absent; 'no write addressed a watched key' => EXEC must return the array and probe exist; a write that left the state equal is not asserted either way. Non-trivial = the EXEC outcome was asserted (must-abort or must-execute); distinct by hash of the step list",
+        rule: "(a) enumerated grid, every tier: ~70 commands (every write command of the server plus reads and writes to same-shard / other-shard keys) x watched-key state {absent, string, list, set, hash, zset, stream, string with TTL} x path {another connection directly, the watching connection before MULTI, another connection inside its own EXEC, a script via redis.call}, plus a blocking pop served to a third client, the key's own deadline passing before and after a sweeper pass, UNWATCH/DISCARD/EXEC forgetting the watches, a second watcher of the same key forgetting its watch (UNWATCH, DISCARD, EXEC, disconnect) before or after the change, and equal names in other databases; (b) random histories: WATCH 1..3 keys, 0..6 commands by two other connections on watched / same-shard / other-shard keys and other databases, optionally UNWATCH/DISCARD/EXEC, then MULTI; SET probe; EXEC; EXISTS probe. Oracle: the model decides 'state of a watched key changed' => EXEC must be nil and probe absent; 'no write addressed a watched key' => EXEC must return the array and probe exist; a write that left the state equal is not asserted either way. Non-trivial = the EXEC outcome was asserted (must-abort or must-execute); distinct by hash of the step list",
         history: Some(history),
         max_len: 12,
         quick_cases: 3000,
